@@ -346,7 +346,7 @@ func (l jsonList) patch(pathBehind, pathAhead Path, before, removeValues, addVal
 
 	// Recursive case
 	if len(rest) > 0 {
-		if int(i) > len(l)-1 {
+		if int(i) < 0 || int(i) > len(l)-1 {
 			return nil, fmt.Errorf("patch index out of bounds: %v", i)
 		}
 		patchedNode, err := l[i].patch(append(pathBehind, n), rest, nil, removeValues, addValues, nil, strategy)
@@ -364,6 +364,11 @@ func (l jsonList) patch(pathBehind, pathAhead Path, before, removeValues, addVal
 		}
 		l = append(l, addValues...)
 		return l, nil
+	}
+
+	// The edit position must be inside the list or right at its end.
+	if int(i) < 0 || int(i) > len(l) {
+		return nil, fmt.Errorf("patch index out of bounds: %v", i)
 	}
 
 	// Check context before
